@@ -584,6 +584,11 @@ def o_limits(w, tr):
     cfg = w.manager.config if w.manager else None
     if cfg is None:
         return out
+    if w.sched.outcome == 'deadlock':
+        for e in tr.ev('fut.cb_exception') + tr.ev('ex.end'):
+            if 'NoResourcesAvailable' in (e[3].get('exc') or ''):
+                out.append(('C10:no-resources', f'a submit failed with {e[3]["exc"]} (raised inside a done callback at step {e[0]}) instead of blocking; the transfer then never finished'))
+                return out
     END = 10 ** 9
     ev_data, ev_head = [], []
     for c in tr.calls:
@@ -669,6 +674,10 @@ def o_limits(w, tr):
         # observation for the evidence only: the property bounds writers per destination
         # (judged above), not the number of IO threads
         w.sched.user['max_io_tasks_running'] = ioex[0].max_running
+    for e in tr.ev('fut.cb_exception') + tr.ev('ex.end'):
+        if 'NoResourcesAvailable' in (e[3].get('exc') or ''):
+            out.append(('C10:no-resources', f'a submit failed with {e[3]["exc"]} (raised inside a task / done callback at step {e[0]}) instead of blocking'))
+            break
     for idx, oc in w.outcomes.items():
         if oc[0] == 'exc' and isinstance(oc[1], NoResourcesAvailable):
             out.append(('C10:no-resources', f'transfer {idx} failed with NoResourcesAvailable instead of blocking'))
